@@ -5,6 +5,7 @@
 -/
 import GraphiqModel.Model.StabTableau
 import GraphiqModel.Model.Clifford1
+import GraphiqModel.Model.Circuit
 namespace Graphiq.Solver
 open Graphiq Graphiq.Cliff
 
@@ -29,6 +30,20 @@ def SOp.touches (np : Nat) (q : Nat) : SOp → Bool
   | .mcr e p => np + e == q || p == q
 
 def identityPair : List Gen := [.I, .I]
+
+/-- register (type, index) of a global qubit index: photons `0..np-1`, then emitters -/
+def regOf (np q : Nat) : QReg := if q < np then ⟨.p, q⟩ else ⟨.e, q - np⟩
+
+/-- a recorded operation as an operation of the circuit model (`Model/Circuit.lean`); this is the translation under which the
+    solver's circuit is printed by the driver (`solver.trs`), compared with the implementation's, and run by `stabRun` -/
+def SOp.toCOp (np : Nat) : SOp → COp
+  | .wrap gs q => .wrap gs (regOf np q)
+  | .emit e p => .cnot ⟨.e, e⟩ ⟨.p, p⟩
+  | .cnotEE c t => .cnot ⟨.e, c⟩ ⟨.e, t⟩
+  | .mcr e p => .mcr ⟨.e, e⟩ ⟨.p, p⟩ 0
+
+/-- the circuit built so far, in time order, as a `Model/Circuit.lean` operation list -/
+def St.cops (s : St) : List COp := s.circ.map (SOp.toCOp s.np)
 
 /-- `_add_one_qubit_gate(circuit, gate_list, index)`: merge with a wrapper that is first on the wire, simplify, drop identities -/
 def addOneQubit (s : St) (gs : List Gen) (q : Nat) : Except Err St :=
